@@ -23,6 +23,9 @@ def main():
         print("refusing: /repo has uncommitted changes")
         return 2
     results = {}
+    rpath = os.path.join(SEEDED, "results.json")
+    if os.path.exists(rpath):
+        results = json.load(open(rpath))
     for sid in ids:
         d = os.path.join(SEEDED, sid)
         meta = json.load(open(os.path.join(d, "meta.json")))
